@@ -11,7 +11,28 @@ namespace Cluster
 namespace Snap
 open Node Raft Raft.CC RaftProps.C02 RaftProps.C05
 
-/-- **the hypotheses of the main induction** on top of `Hyp2` (as `Cluster.Hyp3`):
+/-- **the hypotheses of the main induction** on top of `Hyp2w` (as `Cluster.Hyp3a`) — two facts about
+the messages of the transport that the induction uses (both are *derived* from the other hypotheses in
+`RaftProofs/ClusterSnap3C.lean`: `Hyp3w → Hyp3a`), and one hypothesis on the initial state:
+* `anch`: a `MsgAppend` is anchored inside its sender's log (`log_term ≠ 0` unless the anchor is not
+  above the common initial snapshot point);
+* `rirs`: a `MsgReadIndexResp` was sent by a leader of its term whose commit index covered its index;
+* `snapt0`: the term an initial storage records for the common snapshot point `c0` is not above the
+  initial term of any node. -/
+structure Hyp3a (cfg : JointConfig) (c0 : Nat) (h : List Sys) : Prop extends Hyp2w cfg c0 h where
+  anch : ∀ s ∈ h, ∀ x ∈ s.net, x.msgType = .msgAppend → x.logTerm ≠ 0 ∨ x.index ≤ c0
+  rirs : ∀ n s, h[n]? = some s → ∀ x ∈ s.net, x.msgType = .msgReadIndexResp → RirSrc h n x
+  snapt0 : ∀ s0, h[0]? = some s0 → ∀ i sti, s0.node i = some sti → ∀ t0,
+    sti.raft.raftLog.abs.snapTerm = some t0 → ∀ j stj, s0.node j = some stj → t0 ≤ stj.raft.term
+
+/-- **the hypotheses of the commit layer with compaction, without proof gaps about the transport**:
+`Hyp2w` and the hypothesis `snapt0` on the initial state (`anch` and `rirs` of `Hyp3a` are derived) -/
+structure Hyp3w (cfg : JointConfig) (c0 : Nat) (h : List Sys) : Prop extends Hyp2w cfg c0 h where
+  snapt0 : ∀ s0, h[0]? = some s0 → ∀ i sti, s0.node i = some sti → ∀ t0,
+    sti.raft.raftLog.abs.snapTerm = some t0 → ∀ j stj, s0.node j = some stj → t0 ≤ stj.raft.term
+
+/-- **the hypotheses of the main induction as first stated** (`RaftProps/C01e.lean`) on top of `Hyp2`
+(as `Cluster.Hyp3`), with the two former proof gaps `norir` (in `Hyp2`) and `anch`:
 * `anch` (**proof gap**): a `MsgAppend` is anchored inside its sender's log (`log_term ≠ 0` unless the
   anchor is not above the common initial snapshot point);
 * `snapt0` (a hypothesis on the initial state): the term an initial storage records for the common
@@ -23,8 +44,17 @@ structure Hyp3 (cfg : JointConfig) (c0 : Nat) (h : List Sys) : Prop extends Hyp2
 
 variable {cfg : JointConfig} {c0 : Nat} {h : List Sys}
 
+theorem Hyp3.toHyp2w (H : Hyp3 cfg c0 h) : Hyp2w cfg c0 h := H.toHyp2.toHyp2w
+
+theorem Hyp3.toHyp3a (H : Hyp3 cfg c0 h) : Hyp3a cfg c0 h :=
+  { toHyp2w := H.toHyp2w, anch := H.anch, snapt0 := H.snapt0,
+    rirs := fun n s hn x hx hty => absurd hty (H.norir s (mem_of_get hn) x hx) }
+
+theorem Hyp3.toHyp3w (H : Hyp3 cfg c0 h) : Hyp3w cfg c0 h :=
+  { toHyp2w := H.toHyp2w, snapt0 := H.snapt0 }
+
 /-- the term recorded for the snapshot point is the initial one, or forgotten (after a compaction) -/
-theorem snapTerm_const (H : Hyp2 cfg c0 h) : ∀ (n : Nat) (s : Sys), h[n]? = some s →
+theorem snapTerm_const (H : Hyp2w cfg c0 h) : ∀ (n : Nat) (s : Sys), h[n]? = some s →
     ∀ v st, s.node v = some st → ∃ s0 st0, h[0]? = some s0 ∧ s0.node v = some st0 ∧
       (st.raft.raftLog.abs.snapTerm = st0.raft.raftLog.abs.snapTerm ∨
         st.raft.raftLog.abs.snapTerm = none) := by
@@ -52,19 +82,24 @@ theorem snapTerm_const (H : Hyp2 cfg c0 h) : ∀ (n : Nat) (s : Sys), h[n]? = so
       · exact .inr rfl
 
 /-- the term a node records for its snapshot point is not above the initial term of any node -/
-theorem Hyp3.snapt (H : Hyp3 cfg c0 h) : ∀ s ∈ h, ∀ i st, s.node i = some st → ∀ t0,
+theorem Hyp3a.snapt (H : Hyp3a cfg c0 h) : ∀ s ∈ h, ∀ i st, s.node i = some st → ∀ t0,
     st.raft.raftLog.abs.snapTerm = some t0 →
     ∀ s0, h[0]? = some s0 → ∀ j st0, s0.node j = some st0 → t0 ≤ st0.raft.term := by
   intro s hs i st hi t0 ht0 s0 h0 j st0 hj
   obtain ⟨n, hn⟩ := List.mem_iff_getElem?.1 hs
-  obtain ⟨s0', sti, h0', hi0, he⟩ := snapTerm_const H.toHyp2 n s hn i st hi
+  obtain ⟨s0', sti, h0', hi0, he⟩ := snapTerm_const H.toHyp2w n s hn i st hi
   rw [h0] at h0'; cases h0'
   rcases he with he | he
   · exact H.snapt0 s0 h0 i sti hi0 t0 (by rw [← he]; exact ht0) j st0 hj
   · rw [he] at ht0; cases ht0
 
+theorem Hyp3.snapt (H : Hyp3 cfg c0 h) : ∀ s ∈ h, ∀ i st, s.node i = some st → ∀ t0,
+    st.raft.raftLog.abs.snapTerm = some t0 →
+    ∀ s0, h[0]? = some s0 → ∀ j st0, s0.node j = some st0 → t0 ≤ st0.raft.term :=
+  H.toHyp3a.snapt
+
 /-- a known snapshot term sits at the common initial snapshot point -/
-theorem snapTerm_c0 (H : Hyp2 cfg c0 h) : ∀ (n : Nat) (s : Sys), h[n]? = some s →
+theorem snapTerm_c0 (H : Hyp2w cfg c0 h) : ∀ (n : Nat) (s : Sys), h[n]? = some s →
     ∀ v st, s.node v = some st → ∀ t, st.raft.raftLog.abs.snapTerm = some t →
       st.raft.raftLog.abs.snapIdx = c0 := by
   refine hist_induct h _ ?_ ?_
@@ -105,7 +140,7 @@ theorem mem_of_eqAll {F G : LLog} (hF : F.Contig) (heq : ∀ k, F.entryAt k = G.
     (he : e ∈ F.ents) : e ∈ G.ents :=
   G.entryAt_mem (by rw [← heq]; exact hF.entryAt_of_mem he)
 
-theorem term_le (H : Hyp2 cfg c0 h) : ∀ (n : Nat) (s : Sys), h[n]? = some s → TermLe h c0 s := by
+theorem term_le (H : Hyp2w cfg c0 h) : ∀ (n : Nat) (s : Sys), h[n]? = some s → TermLe h c0 s := by
   refine hist_induct h _ ?_ ?_
   · intro s h0
     have hinit := hist_init H.hist s h0
